@@ -374,7 +374,7 @@ def applyV (sst : Table) (t : Text) (sv : Text) (raw : RawValue F.Num) (formula 
   if t = tSTR then some (.str sv, formula)
   else if t = tS then
     (parseUsize sv).bind fun i => (sst[i]?).bind fun it => some (setSharedStringItem F it raw formula)
-  else if t = tB then some (.bool (sv = ['1']), formula)
+  else if t = tB then some (.bool (sv = ['1'] ∨ sv = ['t', 'r', 'u', 'e']), formula)
   else if t = tE ∨ t = [] ∨ t = tN then some (guess F sv, formula)
   else some (raw, formula)
 
